@@ -52,6 +52,12 @@ def probe_docs():
                           '<description>%s</description></item><trailer></channel></rss>' % m).encode(),
         "atom-illformed": ('<feed xmlns="http://www.w3.org/2005/Atom"><title>t</title><link href="feedlink"/><entry><link href="itemlink"/>'
                            '<content type="html">%s</content></entry><trailer></feed>' % m).encode(),
+        # fields whose DEFAULT type is text/plain: the non-Atom formats guess "this is HTML" from the text (looks_like_html) -- the guess, and with it the
+        # type and the markup steps, must not depend on either option
+        "rss-title": ('<rss version="2.0"><channel><title>t</title><link>feedlink</link><item><link>itemlink</link>'
+                      '<title>%s</title></item></channel></rss>' % m).encode(),
+        "rss-rights": ('<rss version="2.0"><channel><title>t</title><link>feedlink</link><copyright>%s</copyright><item><link>itemlink</link>'
+                       '</item></channel></rss>' % m).encode(),
         "rss-xmlbase": ('<rss version="2.0"><channel><title>t</title><link>feedlink</link><item xml:base="%s"><link>itemlink</link>'
                         '<description>%s</description></item></channel></rss>' % (XBASE, m)).encode(),
     }
@@ -99,6 +105,14 @@ def run_config(doc, args, flags, allow_default):
         val = e["content"][0]["value"]
     elif "summary" in e:
         val = e["summary"]
+    elif "title" in e:
+        val = e["title"]
+        if e.get("title_detail", {}).get("type") != "text/html":
+            val = "<type %r> %s" % (e.get("title_detail", {}).get("type"), val)
+    elif "rights" in r.feed:
+        val = r.feed["rights"]
+        if r.feed.get("rights_detail", {}).get("type") != "text/html":
+            val = "<type %r> %s" % (r.feed.get("rights_detail", {}).get("type"), val)
     return {"value": val, "entry_link": e.get("link"), "feed_link": r.feed.get("link"), "optimistic": seen["optimistic"],
             "calls": seen["calls"], "flags_after": flags_after, "bozo": r.bozo}
 
@@ -193,7 +207,7 @@ def check_config(docname, args, flags, ad, first=None):
 
 def search(ctx, focus=None):
     failures, n, distinct = [], 0, set()
-    for docname in ("rss", "atom", "atom-cdata", "atom-xmlbase", "rss-xmlbase", "rss-illformed", "atom-illformed"):
+    for docname in ("rss", "atom", "atom-cdata", "atom-xmlbase", "rss-xmlbase", "rss-illformed", "atom-illformed", "rss-title", "rss-rights"):
         for args, flags, ad in grid():
             n += 1
             distinct.add((docname, args, flags, ad))
@@ -224,7 +238,7 @@ def search(ctx, focus=None):
         if f:
             failures.append(f)
     return {"evaluations": n, "distinct_nontrivial": len(distinct), "failures": failures, "exhaustive": True,
-            "rule": "all 27 argument triples x 8 flag triples x scheme allow-list {default, ()} on seven probe documents (RSS escaped, Atom escaped, Atom CDATA, Atom / RSS with the entry re-based by xml:base, RSS / Atom made ill-formed so that the fallback parser answers), "
+            "rule": "all 27 argument triples x 8 flag triples x scheme allow-list {default, ()} on nine probe documents (RSS escaped, Atom escaped, Atom CDATA, Atom / RSS with the entry re-based by xml:base, RSS / Atom made ill-formed so that the fallback parser answers, RSS item title and channel copyright -- fields whose default type is text/plain and whose HTML-ness is guessed from the text: the reported type must stay text/html), "
                     "each compared with the value constructed from the probe (event-handler attribute present iff sanitize off; embedded relative href resolved iff "
                     "resolve on; javascript: href blanked iff allow-list default; element links always resolved; flags unchanged afterwards); plus call pairs "
                     "(all 64 flag-change pairs with None arguments + %s random/strided pairs) and exotic truthy/falsy flag values; every configuration is distinct" % ("strided" if ctx.thorough else pairs),
